@@ -68,7 +68,8 @@ class GroupingService:
             DataFrame with duplicate values replaced with null
         """
         # Create a mask for rows where the value is different from the previous row
-        is_first_occurrence = (df[column] != df[column].shift(1)) | (
+        # ne_missing: null is a value of its own (null != "x", null == null)
+        is_first_occurrence = df[column].ne_missing(df[column].shift(1)) | (
             pl.int_range(df.height) == 0
         )  # First row is always shown
 
@@ -112,12 +113,15 @@ class GroupingService:
             # First row condition
             conditions.append(pl.int_range(df.height) == 0)
 
+            # Changes are evaluated on the original columns (`df`), not on the
+            # partially suppressed result, and null counts as a value of its own.
+
             # Higher-level columns changed condition
             for higher_col in group_by[:i]:
-                conditions.append(pl.col(higher_col) != pl.col(higher_col).shift(1))
+                conditions.append(df[higher_col].ne_missing(df[higher_col].shift(1)))
 
             # This column changed condition
-            conditions.append(pl.col(column) != pl.col(column).shift(1))
+            conditions.append(df[column].ne_missing(df[column].shift(1)))
 
             # Combine all conditions with OR
             should_show = conditions[0]
@@ -126,7 +130,7 @@ class GroupingService:
 
             # Apply suppression
             suppressed_values = (
-                pl.when(should_show).then(pl.col(column)).otherwise(None)
+                pl.when(should_show).then(df[column]).otherwise(None)
             )
             result_df = result_df.with_columns(suppressed_values.alias(column))
 
